@@ -312,7 +312,7 @@ def main(argv):
             hd = (("%s: " % name) if name else "")
             body = hd + tokens_text(toks)
             lab = ("%-5d" % label) if label is not None else "     "
-            for mark in "1&+x$":
+            for mark in "1&+x$!*c":       # any character but blank and zero in column 6, also the comment characters
                 for cstyle in ("C comment", "c comment", "* comment", "! comment"):
                     for cut in range(len(hd) + 1, len(body)):
                         if body[cut - 1] == body[cut] and body[cut] in "'\"":
